@@ -76,7 +76,9 @@ theorem histOk_unique (good : List Char → Bool) (ops : List (Op (List Char) V)
     | remove id =>
       exact ⟨rfl, ih _ (fun e he => hL e (mem_refRemove he)) hu fun q hq => hg q (by simpa [insertedPats'] using hq)⟩
     | retain f =>
-      exact ⟨rfl, ih _ (fun e he => hL e (List.mem_filter.1 he).1) hu
+      exact ⟨rfl, ih _ (fun e he => by
+          obtain ⟨e0, he0, hp, hi, _⟩ := mem_refRetain he
+          rw [hp, hi]; exact hL e0 he0) hu
         fun q hq => hg q (by simpa [insertedPats'] using hq)⟩
     | cache limit level =>
       exact ⟨rfl, ih _ hL hu fun q hq => hg q (by simpa [insertedPats'] using hq)⟩
@@ -98,7 +100,10 @@ theorem refRun_unique (ops : List (Op (List Char) V)) :
       · rfl
       · exact hL e he
     | remove id => exact ih _ (fun e he => hL e (mem_refRemove he)) hu
-    | retain f => exact ih _ (fun e he => hL e (List.mem_filter.1 he).1) hu
+    | retain f =>
+      exact ih _ (fun e he => by
+        obtain ⟨e0, he0, hp, hi, _⟩ := mem_refRetain he
+        rw [hp, hi]; exact hL e0 he0) hu
     | cache limit level => exact ih _ hL hu
 
 /-! ### `UniqueRegexTreeMap::get` -/
